@@ -282,8 +282,15 @@ func (p *Program) Request(param string) (*plugin.CodeGeneratorRequest, error) {
 		}
 	}
 	files = append(files, own)
+	toGen := []string{p.File}
+	for _, x := range p.MoreFiles {
+		q := &Program{File: x.File, Package: p.Package, Messages: x.Messages}
+		fd := q.FileDescriptor()
+		files = append(files, fd)
+		toGen = append(toGen, x.File)
+	}
 	req := &plugin.CodeGeneratorRequest{
-		FileToGenerate: []string{p.File},
+		FileToGenerate: toGen,
 		ProtoFile:      files,
 	}
 	if param != "" {
